@@ -6,10 +6,11 @@ A code change that alters one of them breaks the corresponding theorem. -/
 namespace Nsq.Tie.Chan
 set_option maxRecDepth 16000
 
-/-- C02: the only function that deletes from `inFlightMessages` is `popInFlightMessage` (plus the re-make in `initPQ`): the pop decides the single winner between FIN / REQ / TOUCH / timeout scan. Model: `finChanPart`, `req`, `touch`, `timeoutOne` all go through `findE … .inflight`. -/
+/-- C02: the only functions that delete from `inFlightMessages` are `popInFlightMessage` (FIN / REQ / TOUCH) and the timeout scan's own critical section (fix F16: heap pop and map delete together), plus the re-make in `initPQ`: the map removal decides the single winner. Model: `finChanPart`, `req`, `touch`, `timeoutOne` all go through `findE … .inflight`; micro-step model: `ansMapPop`, `scanPop`. -/
 theorem inFlightWrites_eq : Nsq.Gen.Chan.inFlightWrites = ([
   ("Channel.initPQ", "assign"),
   ("Channel.popInFlightMessage", "delete"),
+  ("Channel.processInFlightQueue", "delete"),
   ("Channel.pushInFlightMessage", "store")] : List (String × String)) := by decide
 
 /-- same for the deferred map: `popDeferredMessage` is the only deleter. Model: `deferDueOne`. -/
@@ -23,8 +24,8 @@ theorem popOwnership_eq : Nsq.Gen.Chan.popOwnership = ([
   "if !ok",
   "if msg.clientID != clientID"] : List String) := by decide
 
-/-- C02: exactly FIN, REQ, TOUCH and the timeout scan pop from the in-flight map. -/
-theorem popCallers_eq : Nsq.Gen.Chan.popCallers = (["Channel.FinishMessage", "Channel.RequeueMessage", "Channel.TouchMessage", "Channel.processInFlightQueue"] : List String) := by decide
+/-- C02: exactly FIN, REQ and TOUCH pop from the in-flight map through `popInFlightMessage` (the timeout scan deletes in its own critical section, `scanInFlight_eq`). -/
+theorem popCallers_eq : Nsq.Gen.Chan.popCallers = (["Channel.FinishMessage", "Channel.RequeueMessage", "Channel.TouchMessage"] : List String) := by decide
 
 /-- C02/C03: error-code mapping. The only non-fatal errors of FIN/REQ/TOUCH are E_FIN_FAILED / E_REQ_FAILED / E_TOUCH_FAILED (one site each, wrapping the channel's error); everything else is a fatal E_INVALID; RDY and CLS have only fatal E_INVALID sites. -/
 theorem answerErrs_eq : Nsq.Gen.Chan.answerErrs = ([
@@ -115,10 +116,17 @@ theorem finishMessage_eq : Nsq.Gen.Chan.finishMessage = ([
   "assign msg, err := c.popInFlightMessage(clientID, id)",
   "do c.removeFromInFlightPQ(msg)"] : List String) := by decide
 
-/-- C01/C13: timeout scan body = heap pop, map pop, timeoutCount++, client.TimedOutMessage, put. -/
+/-- C01/C02/C13 (fix F16): timeout scan body = ONE critical section {heap pop; if the map still holds that very object delete it, else forget the stale entry}, exit when nothing was taken; then timeoutCount++, client.TimedOutMessage, put (model `timeoutOne`; micro-step model `scanPop | scanPut`). -/
 theorem scanInFlight_eq : Nsq.Gen.Chan.scanInFlight = ([
+  "do c.inFlightMutex.Lock()",
   "assign msg, _ := c.inFlightPQ.PeekAndShift(t)",
-  "assign _, err := c.popInFlightMessage(msg.clientID, msg.ID)",
+  "if msg != nil",
+  "if ok && m == msg",
+  "assign m, ok := c.inFlightMessages[msg.ID]",
+  "do delete(c.inFlightMessages, msg.ID)",
+  "assign msg = nil",
+  "do c.inFlightMutex.Unlock()",
+  "if msg == nil",
   "do atomic.AddUint64(&c.timeoutCount, 1)",
   "do client.TimedOutMessage()",
   "do c.put(msg)"] : List String) := by decide
@@ -272,7 +280,7 @@ theorem heapRemoveGuard_eq : Nsq.Gen.Chan.heapRemoveGuard = ([
   "do c.inFlightPQ.Remove(msg.index)",
   "do c.inFlightMutex.Unlock()"] : List String) := by decide
 
-/-- C02.7: `popInFlightMessage` is one critical section: lookup by id, owner test on the object's `clientID`, delete — the map step that decides the race (model: `ansMapPop`, `scanMapPop`). -/
+/-- C02.7: `popInFlightMessage` is one critical section: lookup by id, owner test on the object's `clientID`, delete — the map step that decides the race (model: `ansMapPop`; the scan's own section: `scanPop`). -/
 theorem popInFlight_eq : Nsq.Gen.Chan.popInFlight = ([
   "do c.inFlightMutex.Lock()",
   "assign msg, ok := c.inFlightMessages[id]",
